@@ -94,6 +94,8 @@ EXTRA_ENGINES = [
   "kind_free_text": "growth of Scheduler.tla beyond the listed properties: ExternalKill (killController/cleanUp at any time), restart from a later stage, sleep/wake-up (postponed finishedChecks replayed in order), memoization answers, DoWhile at run time (iteration slots, placeholders, condition true/false/garbage); 16 further invariants / action properties model-checked by TLC; real Controller runs in which the environment kills, sleeps and wakes at random turns (also inside postMortemCheck / Engine.restart) are trace-validated. Run with ./check G02 --tier quick|thorough (evidence/G02.json); C01/C02 run a second model with ExternalKill and kill one real schedule in five."},
  {"name": "ExperimentLifecycle", "path": "/verif/spec/ExperimentLifecycle.tla", "serves_properties": ["C14", "C20"],
   "kind_free_text": "growth beyond the listed properties (G03): TLA+ state machine of elaunch's Setup/Run/finalisation and the status.txt document; TLC model checking (safety + liveness, repaired vs. code variants, named deviations); the real elaunch.py __main__ block executed from its AST on a deterministic world, every status version recorded and trace-validated under 16 repair combinations, TLC terminal outcomes compared with the real final status. Run with ./check G03 --tier quick|thorough (evidence/G03.json); not a property check."},
+ {"name": "ExecutorChain", "path": "/verif/spec/ExecutorChain.tla", "serves_properties": ["C10", "C17"],
+  "kind_free_text": "growth beyond the listed properties (G05): TLA+ function specs of executable resolution and command-line rendering executed case by case on the real executors classes, and through packages into real processes; a TLA+ state machine of the pre/main/post chain replayed on the real lsf.Task over a lock-stepped /bin/sh batch daemon, plus TLC trace validation of recorded random runs. Run with ./check G05 --tier quick|thorough (evidence/G05.json); not a property check."},
 ]
 
 
